@@ -64,8 +64,8 @@ prop("C03",
          H("txfile.VerifFault", "transactions that follow a failed one read and write correctly; a Commit that returns nil has written every page", "nops=1",
            quick={"params": {"nops": 1}}, thorough={"params": {"nops": 2}, "max_paths": 300000, "budget": "1500s"}),
          H("txfile.VerifWriterOrder", "real background writer: per page the last scheduled write is the last one issued, syncs separate what was scheduled before/after them; sort.Slice ties nondeterministic",
-           "3 messages (thorough 4) with symbolic page ids out of 2 (thorough 3), symbolic sync positions, writer runs when the producer blocks (thorough: 2 preemptions at sync operations)",
-           thorough={"params": {"msgs": 4, "ids": 3, "preempt": 2}, "max_paths": 200000, "budget": "1200s"}),
+           "3 messages (thorough 4) with symbolic page ids out of 2 (thorough 3), symbolic sync positions, writer runs when the producer blocks (thorough: 1 preemption at sync operations)",
+           thorough={"params": {"msgs": 4, "ids": 3, "preempt": 1}, "max_paths": 200000, "budget": "1200s"}),
      ])
 
 PROG_BOUNDS = ("fresh file on the simulated disk (page size 1024, 64 pages or unbounded), 2 committed pages, "
